@@ -12,1039 +12,929 @@ Definition show_fres (r : fres) : string :=
   end.
 Definition check (rs : list rune) : string := digest (show_fres (format_res rs)).
 Definition full (rs : list rune) : string := show_fres (format_res rs).
-Eval vm_compute in ("<<<M1601>>>" ++ check (runes_of_ascii "  packet
+Eval vm_compute in ("<<<M1939>>>" ++ check (runes_of_ascii "
+packet
 
     metadata
-{
+{	repeat
+f64 	 // " ++ [128512]%N ++ runes_of_ascii " emoji
 
-    repeat
-
-    f64  // " ++ [128512]%N ++ runes_of_ascii " emoji
-
-Foo 
-, repeat 
-Logon	f32a
+Foo, repeat	Logon  f32a
 `
 `	, 
-@calculatedFrom(""1"")
-repeat
+@calculatedFrom(
+    ""1""
 
-    uint8  // trailing space 
-  	calculatedFrom`u8 x,`
-	, char[]packetx, 	 // packet A { u8 x, }
-	@calculatedFrom(
-	""abc""
-)
+)  repeat
+uint8 	 // trailing space 
+	calculatedFrom `u8 x,` ,
 
-    Pad@lengthOf( msg_type
-	)
+    char[] packetx ,	// packet A { u8 x, }
+      @calculatedFrom(
+""abc"") Pad@lengthOf(
+    msg_type	) `line1
+line2` ,
+@rightPad
+(
+	' '
 
-`line1
-line2`, @rightPad ( ' '	)tag  `" ++ [233]%N ++ runes_of_ascii "` ,
-
-@tag(10 
+    )	tag `" ++ [233]%N ++ runes_of_ascii "`
+, @tag(10
 /// triple
-
-) u8x	@calculatedFrom(
-	""CRC32"" 
-) 
-,
-match 
+	)u8x
+    @calculatedFrom( ""CRC32"" )
+,  match
+        // trailing space 
 // trailing space 
-	  // trailing space 
+		metadata
+as  msg_type 
 
-metadata as  msg_type 
-    //
-	// " ++ [27880; 37322]%N ++ runes_of_ascii "
-{
-    [
-""\n""//x
+//
+      // " ++ [27880; 37322]%N ++ runes_of_ascii "
 
+  {
+    [ ""\n""	//x
+	, 0123456789  // c
+      ]
+
+    :options1 
+, ""\n""
+
+: float
+
+,	} 
 ,
 
-0123456789  // c
-    ]	:
-options1
-
-,""\n"":
-	float  ,
-}	, 
 }
-    packet 
+
+packet
     // " ++ [128512]%N ++ runes_of_ascii " emoji
 	// " ++ [128512]%N ++ runes_of_ascii " emoji
-    MetaDataX
-{
-string
-
-string_  `doc` ,  @rightPad( '0'
-)zchar[ 
-        // " ++ [128512]%N ++ runes_of_ascii " emoji
-
-// `tick` ""quote"" 'q'
-	00
-
-]
-    zchar
-`a\`
-,
-	}
-
-    options	{ leftPad
-= 0 float=4294967296;
-    } // `tick` ""quote"" 'q'
-root
-packet  body { @calculatedFrom(
-
-    ""1"")  @lengthOf(
-	int
-
-    )match
-
-float
-    as Z9_
-
-{
-    // packet A { u8 x, }
-      // trailing space 
-	42
-
-    :
-
-    x""packet"" 
-: // `tick` ""quote"" 'q'
-	  matchKey
-
-, """ ++ [28040; 24687]%N ++ runes_of_ascii """ 
-
-    /// triple
-  	// packet A { u8 x, }
-		:
-
-o
-,	255
-:
-    float},
-@tag( 0123456789 
-)match
-	calculatedFrom as// @lengthOf(
-	trueish  {  [""packet""
-,
-	""`tick`""//x
-
-, 
-""" ++ [233]%N ++ runes_of_ascii "t" ++ [233]%N ++ runes_of_ascii """
-]:
-MetaDataX
-4294967296	: trueish
-    , 3  :
-
-    // trailing space 
-  // packet A { u8 x, }
-	i64_ ,
-
-    0123456789
-	:f32a
-
-,[7
-	,  //	t
-  10 ,""CRC32"" 
-,	""x y""	, ""\n"" 
+	  MetaDataX  {string string_
+`doc` , 
+@rightPad('0')zchar[ 
+    // " ++ [128512]%N ++ runes_of_ascii " emoji
     // `tick` ""quote"" 'q'
-,""CRC32"" ,
-	""`tick`""
-    ]  // `tick` ""quote"" 'q'
+	00
+]
+	zchar
+`a\` ,
 
+    } options{
+leftPad
+=	0 float
+    = 4294967296  ; }// `tick` ""quote"" 'q'
+  root
+
+    packet
+	body 
+{ @calculatedFrom(""1""
+
+)@lengthOf(int
+	)
+match float as 
+Z9_	{ 
+// packet A { u8 x, }
+    	// trailing space 
+    	42 : 
+x ""packet"" :// `tick` ""quote"" 'q'
+  matchKey
+
+,
+    """ ++ [28040; 24687]%N ++ runes_of_ascii """
+	    /// triple
+    	// packet A { u8 x, }
+
+: 
+o
+	, 255: float
+    } ,  @tag(
+	0123456789
+	)
+match
+
+calculatedFrom as	// @lengthOf(
+    trueish {[ ""packet""	,
+    ""`tick`"" 	 //x
+  ,
+""" ++ [233]%N ++ runes_of_ascii "t" ++ [233]%N ++ runes_of_ascii """ ]
+
+:MetaDataX
+
+4294967296
 :
 
-    body
-,  },
-
-char[ 1  //
-  ]
-
-    Foo  // " ++ [128512]%N ++ runes_of_ascii " emoji
-
-  ,@rightPad
-
-    (
-
-    ' ' 
-)
-    @calculatedFrom(// " ++ [27880; 37322]%N ++ runes_of_ascii "
-	""a	b"")
-
-    repeat 
-string_{ repeat	Logon	// @lengthOf(
-	,	Z9_
-i8i8
-
-,match
-
-Z9_
-as
-
-    A
-{
-
-    [ 42 ]
-	: Logon,
-[
-""CRC32""
-
-    ,
-	1,
-    ""a\""b"" ,
-4294967296
-, 
-0
-, 
-""\" ++ [233]%N ++ runes_of_ascii """
-	] :	roots ""a\""b""	:MetaDataX 
-, 255	: _x
-
-, 
-65535
-    :rootA
-	,}
-
-    ,	match 
-_x as Foo  {
-
-    [  255
-, """ ++ [28040; 24687]%N ++ runes_of_ascii """
-, 	 // packet A { u8 x, }
-    ""CRC32""
-	, 
-	    // c
-  """ ++ [233]%N ++ runes_of_ascii "t" ++ [233]%N ++ runes_of_ascii """
+    trueish
 ,
-    ""abc""
-]
 
-:	len  ""a\\""
-    :	Pad
-    0
-    :
-
-falsey
-    ,
-
-3
-    : u128,  }	, // a // b
-
-} , repeat 	 // packet A { u8 x, }
-    	options1 int `{ , }`
+    3 :
+// trailing space 
     // packet A { u8 x, }
-    //
-    , }")).
-Eval vm_compute in ("<<<M1683>>>" ++ check (runes_of_ascii "
-options
-{  StringPrefixLenType  =
-u16;
-
-    ArrayPrefixLenType  = u16 ;
-}
-packet 
-SampleBinary {
-
-    uint16 MsgType 
-`" ++ [28040; 24687; 31867; 22411]%N ++ runes_of_ascii "` , u16
-	BodyLenght @lengthOf(
-
-Body
-
-    ) 
-`" ++ [28040; 24687; 20307; 38271; 24230]%N ++ runes_of_ascii "`
-, match	MsgType
-
-    as	Body
-{
-
-    1 : Logon  , 2 
-:	Logout 
-, 3 
-:  Heartbeat
-	,4 :
-RiskControlRequest  , 5
-
-    : RiskControlResponse ,
-}	,	@calculatedFrom(
-	""CRC32""
-
-    )
-
-u32  Ckecksum `" ++ [26657; 39564; 21644]%N ++ runes_of_ascii "`, }
-
-packet
-	Logon{
-    @leftPad(
-
-    '0'	)
-char[10  ] UserName	`" ++ [29992; 25143; 21517]%N ++ runes_of_ascii "`
+	i64_
 ,
-string
+0123456789
 
-    Password 
-`" ++ [23494; 30721]%N ++ runes_of_ascii "`
+    :
+	f32a,
+    [ 7
+,//	t
+	10
+    ,
+    ""CRC32""	,""x y"" , 
+""\n"" 
+      // `tick` ""quote"" 'q'
+
+, 
+""CRC32"",
+""`tick`""	] // `tick` ""quote"" 'q'
+  : 
+body
+    ,}
+	,char[
+
+    1	//
+    ]
+
+Foo 	 // " ++ [128512]%N ++ runes_of_ascii " emoji
+
 	,
 
-    uint64
-	ClientId
+    @rightPad (
+' ')
 
-`" ++ [23458; 25143; 31471]%N ++ runes_of_ascii "ID`
-,u16
+    @calculatedFrom(// " ++ [27880; 37322]%N ++ runes_of_ascii "
+	""a	b""
+) repeat
+string_
+{
+    repeat
+Logon 	 // @lengthOf(
+	  ,Z9_
 
-HeartbeatInterval
+i8i8
+    ,
+match
+    Z9_
 
-`" ++ [24515; 36339; 38388; 38548]%N ++ runes_of_ascii "`
+as
+    A
 
+{
+    [ 42]  :	Logon,
+    [  ""CRC32""
+
+    , 1 ,""a\""b""
 ,
+4294967296
 
+, 0 ,
+""\" ++ [233]%N ++ runes_of_ascii """
+
+    ]
+
+: roots
+    ""a\""b""
+:
+
+MetaDataX
+,255 :
+	_x
+    , 
+65535
+:rootA
+
+    ,
+
+    },match 
+_x as Foo { 
+[ 255
+
+    ,	""" ++ [28040; 24687]%N ++ runes_of_ascii """ ,  // packet A { u8 x, }
+      ""CRC32""
+	, 
+
+// c
+	  """ ++ [233]%N ++ runes_of_ascii "t" ++ [233]%N ++ runes_of_ascii """
+
+    ,
+""abc""] :
+len
+	""a\\"" 
+: Pad
+
+    0
+:
+	falsey
+    , 
+3:
+
+    u128
+,}
+
+, 	 // a // b
+  }
+
+    ,repeat  // packet A { u8 x, }
+
+  options1 int
+`{ , }` 
+    // packet A { u8 x, }
+
+  //
+    	,
     }
 
+")).
+Eval vm_compute in ("<<<M1908>>>" ++ check (runes_of_ascii "
+
+  options{
+    StringPrefixLenType =
+u16
+;
+	ArrayPrefixLenType=
+u16;
+    }
+packet
+    SampleBinary{ uint16 MsgType  `" ++ [28040; 24687; 31867; 22411]%N ++ runes_of_ascii "` 
+, u16 BodyLenght @lengthOf(
+Body  )
+
+`" ++ [28040; 24687; 20307; 38271; 24230]%N ++ runes_of_ascii "`
+,
+match
+
+    MsgType
+	as	Body{ 1: 
+Logon	, 2  :	Logout
+,
+3
+
+:Heartbeat
+,
+
+4
+    :  RiskControlRequest ,
+5
+:
+
+    RiskControlResponse  , 
+}
+	,
+
+@calculatedFrom( ""CRC32"" )
+u32 Ckecksum
+	`" ++ [26657; 39564; 21644]%N ++ runes_of_ascii "`
+
+, }
+	packet  Logon  { @leftPad(
+
+    '0' )
+char[
+10] 
+UserName 
+`" ++ [29992; 25143; 21517]%N ++ runes_of_ascii "`,	string  Password
+
+    `" ++ [23494; 30721]%N ++ runes_of_ascii "`
+, uint64 ClientId
+	`" ++ [23458; 25143; 31471]%N ++ runes_of_ascii "ID` , u16
+	HeartbeatInterval`" ++ [24515; 36339; 38388; 38548]%N ++ runes_of_ascii "` 
+,  } 
 packet 
 Logout
-    {
 
-@rightPad(	'0'  )char[10
-    ]
-UserName `" ++ [29992; 25143; 21517]%N ++ runes_of_ascii "`, 
-uint64 ClientId`" ++ [23458; 25143; 31471]%N ++ runes_of_ascii "ID` 
-, }
-
+{@rightPad('0' )char[10 ]UserName
+	`" ++ [29992; 25143; 21517]%N ++ runes_of_ascii "`
+,
+uint64	ClientId`" ++ [23458; 25143; 31471]%N ++ runes_of_ascii "ID` ,
+} packet
+	Heartbeat
+{ } 
 packet
-    Heartbeat
-	{}
-packet
-
 RiskControlRequest
-{string
-    UniqueOrderId `" ++ [21807; 19968; 35746; 21333; 21495]%N ++ runes_of_ascii "` ,char[16
+
+{  string 
+UniqueOrderId
+    `" ++ [21807; 19968; 35746; 21333; 21495]%N ++ runes_of_ascii "`  ,
+char[16  ]
+ClOrdID
+`" ++ [23458; 25143; 35746; 21333; 21495]%N ++ runes_of_ascii "`,	char[
+
+    3 
 ]
-	ClOrdID
-	`" ++ [23458; 25143; 35746; 21333; 21495]%N ++ runes_of_ascii "` 
-, char[
+	MarketID
+	`" ++ [24066; 22330]%N ++ runes_of_ascii "id` , char[  12 ]
+SecurityID  `" ++ [35777; 21048; 20195; 30721]%N ++ runes_of_ascii "` , char	Side
 
-3 
-]MarketID `" ++ [24066; 22330]%N ++ runes_of_ascii "id`
-
-    , char[ 12
-]  SecurityID 
-`" ++ [35777; 21048; 20195; 30721]%N ++ runes_of_ascii "`
-
-,  char Side
-    `" ++ [20080; 21334; 26041; 21521]%N ++ runes_of_ascii "` ,
-
-    char  OrderType
-	`" ++ [35746; 21333; 31867; 22411]%N ++ runes_of_ascii "` 
-, u64  Price `" ++ [20215; 26684]%N ++ runes_of_ascii "`,	u32
-
-    Qty	`" ++ [25968; 37327]%N ++ runes_of_ascii "`
-,
-repeat	string
-ExtraInfo`" ++ [38468; 21152; 20449; 24687]%N ++ runes_of_ascii "` 
-,  repeat
-
-SubOrder { char[
-
-    16 ]  ClOrdID`" ++ [23376; 35746; 21333; 21495]%N ++ runes_of_ascii "`
+    `" ++ [20080; 21334; 26041; 21521]%N ++ runes_of_ascii "`
 ,
 
-u64
+    char OrderType `" ++ [35746; 21333; 31867; 22411]%N ++ runes_of_ascii "`,u64  Price
+	`" ++ [20215; 26684]%N ++ runes_of_ascii "` 
+,
+	u32
+    Qty
+`" ++ [25968; 37327]%N ++ runes_of_ascii "`
 
-    Price`" ++ [23376; 35746; 21333; 20215; 26684]%N ++ runes_of_ascii "`
+    , repeat string  ExtraInfo
+
+    `" ++ [38468; 21152; 20449; 24687]%N ++ runes_of_ascii "`
+, repeat	SubOrder{char[
+	16 ] ClOrdID `" ++ [23376; 35746; 21333; 21495]%N ++ runes_of_ascii "`
+,
+
+u64  Price
+`" ++ [23376; 35746; 21333; 20215; 26684]%N ++ runes_of_ascii "`, u32 Qty	`" ++ [23376; 35746; 21333; 25968; 37327]%N ++ runes_of_ascii "`, }
+, } packet RiskControlResponse {string
+UniqueOrderId
+
+`" ++ [21807; 19968; 35746; 21333; 21495]%N ++ runes_of_ascii "` ,i32
+    Status
+
+    `" ++ [29366; 24577]%N ++ runes_of_ascii "`
+	,
+string Msg
+`" ++ [32467; 26524; 20449; 24687]%N ++ runes_of_ascii "`
+,repeat
+Detail
 
     ,
 
-    u32	Qty `" ++ [23376; 35746; 21333; 25968; 37327]%N ++ runes_of_ascii "` , } 
-,}packet 
-RiskControlResponse
-	{
-    string UniqueOrderId `" ++ [21807; 19968; 35746; 21333; 21495]%N ++ runes_of_ascii "`
-,i32
-
-    Status`" ++ [29366; 24577]%N ++ runes_of_ascii "`,
-	string	Msg
-	`" ++ [32467; 26524; 20449; 24687]%N ++ runes_of_ascii "`
-
-    ,	repeat
-
-Detail, } packet 
-Detail{
-
-string
-	RuleName 
-`" ++ [35268; 21017; 21517; 31216]%N ++ runes_of_ascii "` ,
-u16
-Code 
-`" ++ [21407; 22240; 20195; 30721]%N ++ runes_of_ascii "`
-    ,
-
-}")).
-Eval vm_compute in ("<<<M143>>>" ++ check (runes_of_ascii "
-packet  lengthOf
-{  @tag( 65535
-/// triple
-//	t
-)@tag( //	t
-3 ) @tag( 0123456789) options1 @calculatedFrom(""abc""
-    ) , @rightPad
-( '0')falsey @lengthOf( a1  )
-    ,
-    @lengthOf(Pad
-)body @calculatedFrom( // " ++ [128512]%N ++ runes_of_ascii " emoji
-""packet"" ) // trailing space 
-,
-} packet int
-{ string Foo @calculatedFrom(""CRC32"" ) ,}
-root
-// trailing space 
-//	t
-packet uint8x
-    {}
-root packet len { x_y_z
-_x ,
-    BodyLength rootA
-/// triple
-//
-,
-match f32a as Logon
-    {[ ""a\""b"" ,
-""" ++ [28040; 24687]%N ++ runes_of_ascii """
-    ,
-    """ ++ [128512]%N ++ runes_of_ascii """
-,65535, 00 ,4294967296
-    ,
-"""" ,""abc"" ]
-    : roots,[
-    00 ] :
-A ,  [
-    65535
-// a // b
-// trailing space 
-,
-// trailing space 
-// " ++ [128512]%N ++ runes_of_ascii " emoji
-65535
-, """" ]
-// c
-// packet A { u8 x, }
-:
-// " ++ [128512]%N ++ runes_of_ascii " emoji
-// trailing space 
-pack ,
-    }
-    // trailing space 
-    ,repeat Pad `say ""hi""` ,
-    /// triple
-    a1 calculatedFrom
-    ,
-@lengthOf( stringy )char[] As @calculatedFrom( ""\" ++ [233]%N ++ runes_of_ascii """ )
-, zchar[ 0123456789 ] Z9_
-    @lengthOf( repeatCount ) // packet A { u8 x, }
-`a\`
-, repeat // `tick` ""quote"" 'q'
-string lengthOf , //x
-u8 falsey @calculatedFrom(
-""a\\"" )  ,@calculatedFrom( ""it's"") string calculatedFrom @lengthOf( MetaDataX ) ,}")).
-Eval vm_compute in ("<<<M1539>>>" ++ check (runes_of_ascii "options {
-    FixedStringPadFromLeft = true;
-    FixedStringPadChar = '0';
-}
-
-packet Leg {
-    InPrice0 {
-        repeat string clOrdID,
-        int16 msgKind,
-        zchar[5] Px,
-    },
-    i16 f1,
-    repeat f64 Side2,
-    string Acct,
-}
-
-packet Cancel {
-    zchar[4] clOrdID,
-    string seqNo,
-    Leg,
-    @leftPad('0')
-    char[11] OrderId,
-}
-
-packet Quote {
-    repeat char[4] sym,
-    f64 OrderId,
-    repeat Leg,
-    repeat i64 f1,
-    int16 Note,
-    zchar[3] count,
-}
-
-root packet Ack {
-    @leftPad(' ')
-    char[10] sym,
-    InPx60 {
-        Cancel,
-        repeat char[1] f1,
-        string Tail,
-        repeat InNote55 {
-            int8 count,
-            f64 f1,
-            repeat Cancel,
-        },
-        char[] tag7,
-        repeat string msgKind,
-    },
-    u8 lastPx,
-    match lastPx as Body {
-        152 : Quote,
-        173 : Cancel,
-        4 : Leg,
-    },
-    u16 Ref @calculatedFrom(""CRC32""),
-}")).
-Eval vm_compute in ("<<<M1912>>>" ++ check (runes_of_ascii "options {
-    // " ++ [27880; 37322]%N ++ runes_of_ascii "
-    //x
-    float = char[];
-    Header = false
-    //
-    /// triple
-}
-
-// `tick` ""quote"" 'q'
-options {
-    x = char[];
-}
-
-MetaData i64_ {
-    f64 As `
-        `,
-    repeatCount MetaDataX,
-    repeatCount u128,
-    metadata msg_type `tab	here`,
-}
-
-packet options1 {
-    repeat char[0123456789] T,
-    @tag(65535)
-    //x
-    @calculatedFrom(""CRC32"")
-    @calculatedFrom(""" ++ [28040; 24687]%N ++ runes_of_ascii """)
-    repeat string Logon,
-    @lengthOf(u128)
-    stringy {
-        string_ x,
-    },
-    @tag(10)
-    u64 tag @lengthOf(roots),
-    Foo @lengthOf(Foo) `// not a comment`,
-    string pack `a\`,
-    match A as charz {
-        [3] : x,
-    },
-    @tag(42)
-    f64 msg_type @lengthOf(trueish),
-    match pack as options1 {
-        """ ++ [28040; 24687]%N ++ runes_of_ascii """ : string_,
-        [65535, 7, ""a\""b"", 7] : f32a,
-        4294967296 : o,
-    },
-    char[] falsey,
-}// " ++ [128512]%N ++ runes_of_ascii " emoji")).
-Eval vm_compute in ("<<<M1776>>>" ++ check (runes_of_ascii "  //x
-packet
-
-    x
-    {	@lengthOf(
-string_
-
-)
-
-// `tick` ""quote"" 'q'
-    // trailing space 
-msg_type{ int// a // b
-
-@lengthOf(
-
-    chars  )
-
-    //x
-		// " ++ [27880; 37322]%N ++ runes_of_ascii "
-	`" ++ [28040; 24687; 31867; 22411]%N ++ runes_of_ascii "` ,
-int
-    `a\`
-
-    ,}
-    , 
-uint32 
-chars 
-@calculatedFrom( ""`tick`""	) 
-`
-` ,@lengthOf( 
-packetx 	 // trailing space 
-	)
-	match 
-metadata 
-as
-    x_y_z {
-65535:
-x ,007
-	    // `tick` ""quote"" 'q'
-
-  // " ++ [128512]%N ++ runes_of_ascii " emoji
-
-: 
-u
-    [7	, ""// no comment""
-
-    , """ ++ [28040; 24687]%N ++ runes_of_ascii """
-	]
-
-: x""a\\""
-	:MetaDataX 
-,
-
-0123456789 : lengthOf 10
-: 
-//
-
-  // `tick` ""quote"" 'q'
-      float
-
-} ,  u16 Logon
-    @calculatedFrom(
-    ""x y""	)
-    `tab	here` 
-	    //	t
-
-//
-
-,	@lengthOf(
-
-    Foo)zchar	/// triple
-
-	, }
-	packet
-	tag
-{ }	root packet
-    x_y_z
-{
-}	MetaData
-int
+    }packet	Detail
 
     {
-	string
+    string	RuleName `" ++ [35268; 21017; 21517; 31216]%N ++ runes_of_ascii "`
+    ,	u16 
+Code
+`" ++ [21407; 22240; 20195; 30721]%N ++ runes_of_ascii "`  ,
 
-A
-	`" ++ [233]%N ++ runes_of_ascii "` ,}
+}
 ")).
-Eval vm_compute in ("<<<M1327>>>" ++ check (runes_of_ascii "// top
-packet
+Eval vm_compute in ("<<<M128>>>" ++ check (runes_of_ascii "root
+packet // " ++ [27880; 37322]%N ++ runes_of_ascii "
+crc
+    {	@lengthOf(	As
+)@calculatedFrom(""\" ++ [233]%N ++ runes_of_ascii """
+    ) zchar[ 4294967296 ]MetaDataX `doc` ,/// triple
+rootA @calculatedFrom( ""it's"" )	,@tag( 65535
+    ) @tag( // c
+7 )@tag( 00
+//
+// c
+) len @lengthOf( A ) `two words` ,
+// trailing space 
+// " ++ [128512]%N ++ runes_of_ascii " emoji
+string	rootA@lengthOf( pack
+// trailing space 
+//	t
+) ,
+// " ++ [128512]%N ++ runes_of_ascii " emoji
+// trailing space 
+repeat zchar ,
+@calculatedFrom( ""abc"" )@leftPad ('\x00' ) @rightPad
+( )match x_y_z
+    as Z9_{
+""it's""
+    :
+Logon//x
+, ""x y"" : Packet,""abc""
+: trueish 4294967296 // @lengthOf(
+:
+    repeatCount """ ++ [128512]%N ++ runes_of_ascii """:  x_y_z
+} , char[ 10 // @lengthOf(
+]
+    stringy	`it's`
+, @leftPad (
+'\x00' )
+rootA @lengthOf(  i64_  )
+    , } MetaData falsey {
+Packet repeatCount `tab	here` ,
+}MetaData string_ {
+    float64 roots `line1
+line2` , char
+As //
+`
+` , zchar[ 65535 ]falsey`a\` ,A
+    T , _x metadata, } packet
+_x // packet A { u8 x, }
+{zchar[255 ] string_@lengthOf(
+//	t
+// @lengthOf(
+u128 ) `{ , }`	,
+}root packet Packet
+    {repeat // " ++ [128512]%N ++ runes_of_ascii " emoji
+lengthOf , }")).
+Eval vm_compute in ("<<<M1123>>>" ++ check (runes_of_ascii "// top
+options
     // c0
-Logon { // c2a
-  // c2b
-string // c3a
-  // c3b
-user
-    // c4
-, // c5a
-  // c5b
-} // c6a
-  // c6b
-root
-    // c7
-packet Frame // c9a
-  // c9b
-{ // c10
-u8
-    // c11
-K // c12
-,
-    // c13
-match // c14
-K // c15
-as // c16
-Body
-    // c17
 {
-    // c18
-1 :
-    // c20
-Logon // c21
-, // c22a
-  // c22b
-2 // c23
-: // c24a
-  // c24b
-Logout // c25a
-  // c25b
-,
-    // c26
-} // c27
-, // c28a
-  // c28b
-Tail , // c30a
-  // c30b
-} // c31a
-  // c31b
-packet
-    // c32
-Logout // c33a
-  // c33b
-{ // c34a
-  // c34b
-u16 // c35a
-  // c35b
-reason
-    // c36
-, }
-    // c38
-packet
-    // c39
-Tail
-    // c40
-{
-    // c41
-u32 crc
-    // c43
-, // c44
-} // c45a
-  // c45b
-")).
-Eval vm_compute in ("<<<M1118>>>" ++ check (runes_of_ascii "MetaData Packet
     // c1
-{ // c2
-} packet // c4a
-  // c4b
-charz // c5a
-  // c5b
-{ // c6a
-  // c6b
-Foo // c7
-asx `it's` ,
+uint8x
+    // c2
+=
+    // c3
+007
+    // c4
+;
+    // c5
+lengthOf
+    // c6
+=
+    // c7
+i8
+    // c8
+;
+    // c9
+}
     // c10
-@lengthOf( // c11
-T )
+packet
+    // c11
+i64_
+    // c12
+{
     // c13
 @calculatedFrom(
     // c14
-"""" // c15
+""1""
+    // c15
 )
     // c16
-@calculatedFrom(
+@tag(
     // c17
-""x y"" // c18
-) // c19a
-  // c19b
-zchar[ 007 // c21
-] repeatCount @lengthOf(
-    // c24
-int // c25
+3
+    // c18
 )
-    // c26
-`a\`
-    // c27
-, // c28a
-  // c28b
-i8
-    // c29
-string_ // c30a
-  // c30b
-, // c31
-repeat // c32
-options1 // c33
-Pad
-    // c34
-, } // c36a
-  // c36b
-root packet
-    // c38
-Packet { int8 // c41
-float `doc` // c43
-, // c44
-}
-    // c45
-")).
-Eval vm_compute in ("<<<M327>>>" ++ check (runes_of_ascii "root packet asx
-    { tag body `u8 x,` , }
-packet string_ {
-    @lengthOf(
-len // a // b
-)repeat	zchar[ 42 ] u8x,zchar[ 0 ] asx
-    , } packet
-// " ++ [128512]%N ++ runes_of_ascii " emoji
-// " ++ [27880; 37322]%N ++ runes_of_ascii "
-int {repeat crc
-    { zchar float , match
-    i8i8 as rootA//x
-{ 255 : lengthOf , 1 :lengthOf
-,3
-    :
-roots , 3 : uint8x ,0
-    :As , ""`tick`"" :	repeatCount , }  , repeat
-/// triple
-//
-char[]
-falsey ,
-    u64 lengthOf ,} , @lengthOf( crc ) lengthOf i64_ , leftPad
-`crlf
-line`, }
-    root	packet zchar{ f32 _x @calculatedFrom( ""a\\"" ), }	MetaData chars // trailing space 
-{//
-}")).
-Eval vm_compute in ("<<<M210>>>" ++ check (runes_of_ascii "MetaData tag {
-//
-//
-char[// a // b
-3 ] // a // b
-msg_type
-    // c
-    , char[7 ] options1
-,
-    // trailing space 
-    float crc
-,calculatedFrom pack ,int64 u  `a\`,}
-packet leftPad{char[
-    1
-]
-    /// triple
-    zchar
-,
-    //
-    } packet crc { // c
-@lengthOf( packetx	) @lengthOf( asx)
-@lengthOf( packetx ) calculatedFrom {	f32 packetx	``
-// packet A { u8 x, }
-//x
-, },
-} options { Z9_
-= ""\" ++ [233]%N ++ runes_of_ascii """
-    // a // b
-    float = ' ' ; packetx = ""x y""
-    calculatedFrom  = int16
-    ;
-}")).
-Eval vm_compute in ("<<<M161>>>" ++ check (runes_of_ascii "packet rootA{ options1 _x , u64
-    Header , } packet lengthOf {
-    @rightPad ( ' '	)
-@lengthOf( u128 // trailing space 
-)	@calculatedFrom(	""a\""b"" )  A {string i64_	`it's`,
-//	t
-// trailing space 
-uint8
-body
-, match pack as u {
-// @lengthOf(
-// trailing space 
-00 : charz , 00: int ,3
-: falsey 255 :body
-    ,
-[0123456789 ] :x_y_z ,
-// a // b
-//
-}
-,
-} ,
-} MetaData chars{ u128
-    zchar , char[ 42  ]
-// a // b
-// a // b
-metadata
-    , }
-")).
-Eval vm_compute in ("<<<M1236>>>" ++ check (runes_of_ascii "// top
-options // c0a
-  // c0b
-{ f32a
-    // c2
-= // c3
-0 } // c5
-packet trueish // c7a
-  // c7b
-{ // c8
-}
-    // c9
-MetaData _x // c11
-{ char[ // c13a
-  // c13b
-0123456789 // c14
-] // c15a
-  // c15b
-zchar
-    // c16
-, // c17a
-  // c17b
-string // c18
-crc ,
+    // c19
+@lengthOf(
     // c20
-char[
+rootA
     // c21
-1 ] // c23a
-  // c23b
-options1
+)
+    // c22
+repeat
+    // c23
+int8
     // c24
-, uint8 // c26a
-  // c26b
-repeatCount
-    // c27
-, // c28
-} // c29
-")).
-Eval vm_compute in ("<<<M236>>>" ++ check (runes_of_ascii "packet metadata{ //	t
-float64	body
-    @lengthOf( calculatedFrom ) , // a // b
-@tag(42
-    ) rootA ,
-    x_y_z u8x`// not a comment`
-    ,  @lengthOf(Pad)  match // " ++ [27880; 37322]%N ++ runes_of_ascii "
-packetx  as leftPad
-    {
-    //
-    65535 : tag ,
-""" ++ [128512]%N ++ runes_of_ascii """ :_x} , x_y_z  metadata , @tag(7 )int64 zchar @lengthOf(
-repeatCount ) `" ++ [233]%N ++ runes_of_ascii "`,@tag( 0123456789 ) repeat float chars ,	f32  MetaDataX
-,}")).
-Eval vm_compute in ("<<<M377>>>" ++ check (runes_of_ascii "packet crc {match  trueish
-    as
-len {
-42 : uint8x,// " ++ [128512]%N ++ runes_of_ascii " emoji
-""1"" :asx ,	3
-: body [ ""1"" , 0123456789]: u ""packet"" : o , } , } MetaData tag
-{
-    string
-o `line1
-line2`
+Packet
+    // c25
+`u8 x,`
+    // c26
 ,
-char[] //
-Header `{ , }`// c
-,  uint8x Z9_, } MetaData
-tag
-{ i8 len , }
-    options //x
+    // c27
+}
+    // c28
+root
+    // c29
+packet
+    // c30
+stringy
+    // c31
 {
-// `tick` ""quote"" 'q'
-/// triple
-x= 10;
+    // c32
+@rightPad
+    // c33
+(
+    // c34
+' '
+    // c35
+)
+    // c36
+repeat
+    // c37
+char[
+    // c38
+10
+    // c39
+]
+    // c40
+repeatCount
+    // c41
+,
+    // c42
+@tag(
+    // c43
+255
+    // c44
+)
+    // c45
+float64
+    // c46
+msg_type
+    // c47
+@calculatedFrom(
+    // c48
+""packet""
+    // c49
+)
+    // c50
+,
+    // c51
 }
+    // c52
 ")).
-Eval vm_compute in ("<<<M1316>>>" ++ check (runes_of_ascii "  packet
-
-    MDSnapshotZZ	{	u8
-
-a 
-, }  packet
-    OrderACK  { u16
-b, }packet
-	HTTPServerInfo	{
-string
-s
-
-    ,
-}	root
-    packet  FIXMsg
-    { u8
-KType
-,MDSnapshotZZ  , repeat
-
-    OrderACK,  match 
-KType as Body{1 :
-
-HTTPServerInfo  ,	2
-
-:OrderACK	,
-
-}
-
-    ,}")).
-Eval vm_compute in ("<<<M139>>>" ++ check (runes_of_ascii "packet//x
-x_y_z {rootA @lengthOf( o ) `two words` ,} MetaData f32a{
-trueish
-    // packet A { u8 x, }
-    x , }
-    MetaData body
-    { u128 pack , f64
+Eval vm_compute in ("<<<M228>>>" ++ check (runes_of_ascii "packet
+//
+// " ++ [27880; 37322]%N ++ runes_of_ascii "
+BodyLength  {
+repeat
     // @lengthOf(
-    float	, char[ 65535
+    zchar[	255]tag `crlf
+line` , } MetaData BodyLength	{
+char[ 65535] //	t
+packetx `" ++ [28040; 24687; 31867; 22411]%N ++ runes_of_ascii "` , } options
+    {
+    metadata =3; // trailing space 
+} packet Packet
+{ o { uint16	Logon
+    , } , @leftPad (  )char[ 0123456789 ]
+a1 `" ++ [28040; 24687; 31867; 22411]%N ++ runes_of_ascii "` // a // b
+,
+    repeat string
+lengthOf
+    `{ , }`	,stringy crc
+,@rightPad (
+' ' ) u32	MetaDataX
+    ,
+@rightPad('0' ) tag	{repeat f64 tag `u8 x,`
+, }
+    //	t
+    , char[
+    00 ] uint8x `` , match leftPad  as Header {""" ++ [233]%N ++ runes_of_ascii "t" ++ [233]%N ++ runes_of_ascii """  : Foo
+, [	""\" ++ [233]%N ++ runes_of_ascii """
+, 007
+,00 , 10, ""\" ++ [233]%N ++ runes_of_ascii """ ]: crc
+, [ 1 ,007 , ""a\\""
+    ,
+""packet""
+    ]: //	t
+len // packet A { u8 x, }
+, 10 : MetaDataX
+//x
+// " ++ [128512]%N ++ runes_of_ascii " emoji
+,  }
 //	t
 /// triple
-] tag `" ++ [233]%N ++ runes_of_ascii "`// c
-,  } // " ++ [128512]%N ++ runes_of_ascii " emoji")).
-Eval vm_compute in ("<<<M1593>>>" ++ check (runes_of_ascii "// top
-    root 	 // c0a
-    // c0b
+, } packet
+    i64_{
+@rightPad	('\x00'
+)
+@leftPad(
+) i8 body@calculatedFrom(""" ++ [233]%N ++ runes_of_ascii "t" ++ [233]%N ++ runes_of_ascii """) `it's` , }
+// @lengthOf(
+")).
+Eval vm_compute in ("<<<M4>>>" ++ check (runes_of_ascii "packet
+    // " ++ [128512]%N ++ runes_of_ascii " emoji
+    u128
+{ repeat char[
+// trailing space 
+// packet A { u8 x, }
+65535 ] float ,
+}
+options  { f32a
+= char[] ; } packet// trailing space 
+_x { @rightPad ('0' ) // packet A { u8 x, }
+@lengthOf(i8i8) @lengthOf(lengthOf
+)  repeat	Z9_//x
+`crlf
+line`, string_ {
+// `tick` ""quote"" 'q'
+// c
+zchar[7
+]x_y_z , Header x
+`line1
+line2` ,
+    }, //	t
+@leftPad ( )
+    match float
+as	x_y_z
+{ """ ++ [28040; 24687]%N ++ runes_of_ascii """ : metadata, 007 :
+    A,00 : falsey
+    , 0123456789  : Foo // trailing space 
+,0123456789
+:
+    zchar
+, } ,@calculatedFrom( ""1"" )
+@tag(
+/// triple
+/// triple
+0	) char[
+00 ] options1	, } packet Pad{
+u16
+body
+@lengthOf( stringy // c
+), } options { BodyLength ='0'msg_type =""a\""b"" ; }
 
-  packet P {
-    // c3
-
-u16 
-      // c4
-  a  
-      // c5
-	,  
-      // c6
-
-	u32 // c7a
-// c7b
-
-  Sum // c8
-    @calculatedFrom(  // c9a
-
-	// c9b
-    	""CRC32"") ,}  // c13")).
-Eval vm_compute in ("<<<M1889>>>" ++ check (runes_of_ascii "
-
-  root
-
-packet
-Frame{	u8 K	, 
-Logon
-first ,	match
-	K
-as 
-Body	{
-1 :
-Logon
+")).
+Eval vm_compute in ("<<<M58>>>" ++ check (runes_of_ascii "packet pack
+// c
+// packet A { u8 x, }
+{u8 a1
+// trailing space 
+/// triple
+`say ""hi""` // packet A { u8 x, }
+, @leftPad (
+'\x00' )  uint8 Logon	`
+` // `tick` ""quote"" 'q'
+,
+char[]lengthOf // " ++ [27880; 37322]%N ++ runes_of_ascii "
+`" ++ [233]%N ++ runes_of_ascii "` ,
+//
+//x
+repeat char[] As,
+    //	t
+    @lengthOf(string_ )  @calculatedFrom(
+""a\\"" )
+    repeat
+    u8x	o	, char string_ @calculatedFrom(
+""a\""b"" )
+`tab	here`
+    , repeat As { char[
+    // packet A { u8 x, }
+    0 ] i64_//	t
+@lengthOf( T)
+`" ++ [233]%N ++ runes_of_ascii "` , char[4294967296	]
+T @calculatedFrom( ""\" ++ [233]%N ++ runes_of_ascii """ )
+, trueish
+, repeat int
+{string Logon @calculatedFrom(	""1"" ) , metadata  ,
+uint32
+Z9_  , // " ++ [27880; 37322]%N ++ runes_of_ascii "
+} , },@tag( 00 ) //	t
+i16  a1 `a\`
     ,
-
-    2
-: 
-Logout
-
-    , }  ,
-
-} packet 
-Logon
-{
-	string
-user,}packet Logout {u16 reason ,
     }
+")).
+Eval vm_compute in ("<<<M348>>>" ++ check (runes_of_ascii "root // c
+packet asx { @rightPad
+    (
+' ' ) @lengthOf(  int)@tag( 0 ) u64 uint8x @calculatedFrom( ""packet"")
+    ,  uint32 i64_ ,
+    // c
+    repeat options1 o,match f32a as /// triple
+falsey// " ++ [27880; 37322]%N ++ runes_of_ascii "
+{ 42 : stringy 10 :
+As, """" :
+    Packet ,
+} ,@calculatedFrom(""it's""
+) // " ++ [128512]%N ++ runes_of_ascii " emoji
+f64	a1 ,
+    @lengthOf(
+    tag )
+    match roots as MetaDataX
+{
+""" ++ [128512]%N ++ runes_of_ascii """:  f32a
+    , ""\n"" :
+    As [ 255 ]: A ,  }, a1 @calculatedFrom(	""abc"" )
+`` , @rightPad(
+)
+    @rightPad (
+    '\x00'
+)@calculatedFrom(
+""CRC32"" )body As , }  root packet packetx
+{
+//x
+//
+repeat lengthOf Logon `" ++ [28040; 24687; 31867; 22411]%N ++ runes_of_ascii "` , //	t
+}")).
+Eval vm_compute in ("<<<M45>>>" ++ check (runes_of_ascii "
+packet
+tag{ string matchKey `line1
+line2` , @tag( 0 )// c
+@calculatedFrom( ""1"" )@calculatedFrom( // " ++ [128512]%N ++ runes_of_ascii " emoji
+""a\""b"" ) float64 matchKey
+,}options
+{ crc
+    = true
+    msg_type
+    //	t
+    =
+true;
+} packet o { match  roots
+as calculatedFrom { ""// no comment""
+    // packet A { u8 x, }
+    :
+    msg_type	, ""{,}""
+    :u128, [
+    65535 , 0123456789
+]/// triple
+: body ,// " ++ [128512]%N ++ runes_of_ascii " emoji
+} ,@rightPad ( ' '	) repeat
+string_ i64_ ,
+@lengthOf(
+lengthOf )@tag( 255// packet A { u8 x, }
+)	@tag( 00 )
+char[]
+stringy
+, }
+")).
+Eval vm_compute in ("<<<M291>>>" ++ check (runes_of_ascii "root
+// " ++ [27880; 37322]%N ++ runes_of_ascii "
+// @lengthOf(
+packet
+    Packet
+{ string o @calculatedFrom( ""\" ++ [233]%N ++ runes_of_ascii """)
+, @lengthOf( Packet
+    // packet A { u8 x, }
+    ) body @calculatedFrom( // @lengthOf(
+""x y"" )
+`it's` ,
+float64 As @calculatedFrom( ""`tick`""	), char[]	stringy  @calculatedFrom(""" ++ [28040; 24687]%N ++ runes_of_ascii """	) `doc` , @calculatedFrom(""a	b"") match
+float as o{ [ """ ++ [128512]%N ++ runes_of_ascii """
+    ,007]
+    :metadata
+,
+} ,f32a a1 `a\` , }
+MetaData
+repeatCount
+    { packetx i64_ `" ++ [28040; 24687; 31867; 22411]%N ++ runes_of_ascii "` , // " ++ [128512]%N ++ runes_of_ascii " emoji
+zchar[
+3
+] tag ,
+i8i8 int , }
+")).
+Eval vm_compute in ("<<<M1444>>>" ++ check (runes_of_ascii "packet matchKey {
+    float32 float,
+    @calculatedFrom(""a\\"")
+    @rightPad('\x00')
+    i16 tag @calculatedFrom(""abc""),
+    repeat zchar[255] pack,
+    @lengthOf(Z9_)
+    tag,
+}// trailing space 
+
+root packet rootA {
+    repeat metadata {
+        Logon,
+    },
+    @tag(10)
+    @lengthOf(A)
+    @tag(007)
+    u32 options1,
+    match float as u {
+        0123456789 : u8x,
+    },
+}// " ++ [27880; 37322]%N ++ runes_of_ascii "
+
+root packet lengthOf {
+}")).
+Eval vm_compute in ("<<<M1543>>>" ++ check (runes_of_ascii "packet a1 {
+    char[] charz @calculatedFrom(""" ++ [28040; 24687]%N ++ runes_of_ascii """),
+    uint8x `crlf
+        line`,
+    uint64 T `line1
+        line2`,
+    @leftPad('0')
+    // a // b
+    /// triple
+    @calculatedFrom(""abc"")
+    @tag(3)
+    match int as len {
+        0 : chars,
+        [
+            10, ""a\\"", 1, 0, 10,
+            0
+        ] : body,
+        007 : rootA,
+    },
+    falsey options1,
+}")).
+Eval vm_compute in ("<<<M1963>>>" ++ check (runes_of_ascii "
+options  {
+    LittleEndian= true
+    ;StringPrefixLenType=
+    u16
+
+;
+FixedStringPadChar = ' ';
+	}  packet Logon {
+    @leftPad ('0'
+
+    )char[ 10 ]  tag7 , }root
+	packet Ack {
+	int32
+Px	, uint16 
+count ,
+string 
+Qty
+
+,
+
+    string OrderId,
+string 
+Flags
+,
+
+u8
+x ,	match	x  as Body	{ [
+    58
+    , 169
+
+    ] 
+:
+Logon
+
+,}
+
+,  }
 
 ")).
-Eval vm_compute in ("<<<M1606>>>" ++ check (runes_of_ascii "packet A {
-    match k as n {
-        [
-            ""a"", 22, ""c c"", 4, ""e"",
-            66, ""g"", 8, ""i"", 10,
-            ""k""
-        ] : B,
-        2 : C,
-    },
+Eval vm_compute in ("<<<M1790>>>" ++ check (runes_of_ascii "options {
+    u = 7
+    // " ++ [27880; 37322]%N ++ runes_of_ascii "
+    roots = zchar[65535]
+    msg_type = """ ++ [233]%N ++ runes_of_ascii "t" ++ [233]%N ++ runes_of_ascii """;
+    x = false
+}
+
+MetaData string_ {
+    char[42] i8i8 `" ++ [28040; 24687; 31867; 22411]%N ++ runes_of_ascii "`,
+    u8 x_y_z,
+    packetx lengthOf ``,
+    T Header `line1
+    line2`,
+    char[] u8x `two words`,
+}
+
+packet float {
+    calculatedFrom,
+    @rightPad('0')
+    char[3] u128,
 }")).
-Eval vm_compute in ("<<<M441>>>" ++ check (runes_of_ascii "packet uint8x
-{ match pack
-    as msg_type	{
-    0123456789 :	float float
-}
-,
-} packet //	t
-a1
-    { } options {packetx
-    = '\x00'	; u128= ""a	b""  ; }
+Eval vm_compute in ("<<<M130>>>" ++ check (runes_of_ascii "packet zchar { @lengthOf( a1
+// " ++ [128512]%N ++ runes_of_ascii " emoji
+//	t
+) i64_ @lengthOf( Header )
+`" ++ [28040; 24687; 31867; 22411]%N ++ runes_of_ascii "`, charz`" ++ [233]%N ++ runes_of_ascii "` , char[007] i64_ , tag  { u16  matchKey // " ++ [27880; 37322]%N ++ runes_of_ascii "
+,match Pad as lengthOf { [""CRC32"" ,	""abc""
+] : Packet
+,	}
+, }
+    , } MetaData body {char[
+    10 ]u128
+    `doc`
+    ,
+/// triple
+//x
+} //x")).
+Eval vm_compute in ("<<<M242>>>" ++ check (runes_of_ascii "packet len{} options	{ Z9_ =  4294967296;
+_x =// a // b
+0
+    f32a = zchar[42	] ; } root packet
+    // @lengthOf(
+    BodyLength // trailing space 
+{ }options {
+string_ =u32	;	charz =
+/// triple
+// packet A { u8 x, }
+string
+; } packet len { }")).
+Eval vm_compute in ("<<<M18>>>" ++ check (runes_of_ascii "packet roots
+// a // b
+// " ++ [128512]%N ++ runes_of_ascii " emoji
+{ // " ++ [27880; 37322]%N ++ runes_of_ascii "
+@tag(0
+)
+    repeat // `tick` ""quote"" 'q'
+zchar[
+/// triple
+//x
+0
+]x , } options { As =""\" ++ [233]%N ++ runes_of_ascii """ ;pack = ' ' ; int = // `tick` ""quote"" 'q'
+'\x00' ; options1 =
+""`tick`"" ; }")).
+Eval vm_compute in ("<<<M1524>>>" ++ check (runes_of_ascii "root packet
+_x{ uint32 trueish@calculatedFrom(
+    ""1""
+)	`crlf
+line`  ,
+	} 
+
+//
+      packet Header
+{
+    repeat
+    u64
+	stringy
+	`// not a comment`
+, 
+float32
+
+    msg_type, }
 ")).
-Eval vm_compute in ("<<<M403>>>" ++ check (runes_of_ascii "packet uint8x
-007 match pack
+Eval vm_compute in ("<<<M1780>>>" ++ check (runes_of_ascii "MetaData x {
+}
+
+packet rootA {
+    i64 As @lengthOf(A) `// not a comment`,
+}
+
+options {
+    asx = string;
+    i8i8 = zchar[0123456789];
+    Foo = 10;
+    As = true;
+}")).
+Eval vm_compute in ("<<<M396>>>" ++ check (runes_of_ascii "packet uint8x uint8x
+{ match pack
     as msg_type	{
     0123456789 :	float
 }
@@ -1054,18 +944,15 @@ a1
     { } options {packetx
     = '\x00'	; u128= ""a	b""  ; }
 ")).
-Eval vm_compute in ("<<<M550>>>" ++ check (runes_of_ascii "packet uint8x
-{ match pack
-    as msg_type	{
-    0123456789 :	caf" ++ [233]%N ++ runes_of_ascii "_1
-}
-,
-} packet //	t
-a1
-    { } options {packetx
-    = '\x00'	; u128= ""a	b""  ; }
-")).
-Eval vm_compute in ("<<<M512>>>" ++ check (runes_of_ascii "packet uint8x
+Eval vm_compute in ("<<<M651>>>" ++ check (runes_of_ascii "// @lengthOf(
+packet i8i8 { u128 o , }
+options { MetaDataX MetaDataX = true;
+    BodyLength =""packet"" x_y_z= 007
+crc //x
+= ""abc"" ;
+    msg_type =
+i16 }")).
+Eval vm_compute in ("<<<M541>>>" ++ check (runes_of_ascii "packet uint8x
 { match pack
     as msg_type	{
     0123456789 :	float
@@ -1074,9 +961,9 @@ Eval vm_compute in ("<<<M512>>>" ++ check (runes_of_ascii "packet uint8x
 } packet //	t
 a1
     { } options {packetx
-    = '\x00'	; =u128 ""a	b""  ; }
+    = '\x0" ++ [233]%N ++ runes_of_ascii "0'	; u128= ""a	b""  ; }
 ")).
-Eval vm_compute in ("<<<M503>>>" ++ check (runes_of_ascii "packet uint8x
+Eval vm_compute in ("<<<M497>>>" ++ check (runes_of_ascii "packet uint8x
 { match pack
     as msg_type	{
     0123456789 :	float
@@ -1085,284 +972,238 @@ Eval vm_compute in ("<<<M503>>>" ++ check (runes_of_ascii "packet uint8x
 } packet //	t
 a1
     { } options {packetx
-    = char	; u128= ""a	b""  ; }
+    '\x00' =	; u128= ""a	b""  ; }
 ")).
-Eval vm_compute in ("<<<M687>>>" ++ check (runes_of_ascii "// @lengthOf(
-packet i8i8 { u128 o , , }
+Eval vm_compute in ("<<<M272>>>" ++ check (runes_of_ascii "packet _x	{ } packet BodyLength { int64
+Packet
+@lengthOf( float ),
+options1 /// triple
+{rootA x	, u8
+Packet @calculatedFrom( """ ++ [28040; 24687]%N ++ runes_of_ascii """) `it's`  ,
+} , }")).
+Eval vm_compute in ("<<<M674>>>" ++ check (runes_of_ascii "// @lengthOf(
+packet i8i8 { { u128 o , }
 options { MetaDataX = true;
     BodyLength =""packet"" x_y_z= 007
 crc //x
 = ""abc"" ;
     msg_type =
 i16 }")).
-Eval vm_compute in ("<<<M694>>>" ++ check (runes_of_ascii "// @lengthOf(
+Eval vm_compute in ("<<<M681>>>" ++ check (runes_of_ascii "// @lengthOf(
 packet i8i8 { u128 o , }
 options { MetaDataX = true;
-    = BodyLength""packet"" x_y_z= 007
+    BodyLength =""packet"" x_y_z= 007
+crc //x
+= ""abc"" ;
+    msg_type i16
+= }")).
+Eval vm_compute in ("<<<M706>>>" ++ check (runes_of_ascii "// @lengthOf(
+packet i8i8 { u128 o , }
+options { MetaDataX = ;
+    BodyLength =""packet"" x_y_z= 007
 crc //x
 = ""abc"" ;
     msg_type =
 i16 }")).
-Eval vm_compute in ("<<<M1555>>>" ++ check (runes_of_ascii "
-
-  packet A { u8
-    a
-,
-    } packet	B{ u16
-b , }  root packet
-    P
-	{ 
-u8
-K,
-
-match
-K as
-    M 
-{  1
-:
-	A
-, 1
-
-:  B
-
-    ,
+Eval vm_compute in ("<<<M16>>>" ++ check (runes_of_ascii "options { }MetaData u8x { uint8x	body`crlf
+line`
+    //	t
+    , calculatedFrom body ,
 }
+    options  {
+} root packet options1
+{  }")).
+Eval vm_compute in ("<<<M1538>>>" ++ check (runes_of_ascii "packet
+A
 
-,}
-")).
-Eval vm_compute in ("<<<M1270>>>" ++ check (runes_of_ascii "options {
-    LittleEndian = true;
-}
-packet B {
-    u8 a,
-    string s,
-}
-root packet P {
-    u16 L @lengthOf(B),
-    B,
-    u8 t,
-}
-")).
-Eval vm_compute in ("<<<M1905>>>" ++ check (runes_of_ascii "
-packet	A	{ match
-    k 
-as n
-
-    {
-    [
-""a"" 
-,
-    22
-
-    ,
-
-    ""c c"",
-4
-	]
-
-:
-	B
-
-    2
-:C
-
-    } ,
-    }
-")).
-Eval vm_compute in ("<<<M1950>>>" ++ check (runes_of_ascii "packet
-A{match k
-as n
 {
-    [ 1 ,	22
-,007, 4,	5
-, 66, 
-7
+match  k
+as
 
-    ,
-	8,
-9 , 10,
-	11
-    ]
-	: B
+n{
+    [ 1  ,22, 
+007
 ,
-	2:
+	4  ,
+5
 
-C}
+, 66 ,
 
-    ,
+7 , 
+8
 
-}
+    ,	9 ,10 , 11
+,
+	12
+    ]
+:
+B
+2	: C
+} ,  }")).
+Eval vm_compute in ("<<<M1189>>>" ++ check (runes_of_ascii "MetaData leftPad { chars MetaDataX , } packet repeatCount { char[ 255 ] uint8x `" ++ [233]%N ++ runes_of_ascii "` , } MetaData pack { As Foo , } // c
 ")).
-Eval vm_compute in ("<<<M1172>>>" ++ check (runes_of_ascii "MetaData leftPad { chars MetaDataX , } packet repeatCount { char[ 255 ] uint8x `" ++ [233]%N ++ runes_of_ascii "`
-// c
-, } MetaData pack { As Foo , }")).
-Eval vm_compute in ("<<<M967>>>" ++ check (runes_of_ascii "packet A {
-    match k as n {
-        ""x\
-y"" : B,
-        [""x\
-y"", 1] : C,
-        [1,2,3,4,5,""x\
-y""] : D,
+Eval vm_compute in ("<<<M1167>>>" ++ check (runes_of_ascii "MetaData leftPad { chars MetaDataX , } packet repeatCount { char[ 255 ] // c
+uint8x `" ++ [233]%N ++ runes_of_ascii "` , } MetaData pack { As Foo , }")).
+Eval vm_compute in ("<<<M302>>>" ++ check (runes_of_ascii "packet string_{@lengthOf(	float ) // @lengthOf(
+BodyLength { match uint8x as i64_ { 0123456789
+: As
+    , } , } , }")).
+Eval vm_compute in ("<<<M919>>>" ++ check (runes_of_ascii "packet A {
+    u16 len @lengthOf(body) `a
+b`,
+    u32 crc @calculatedFrom(""CRC32"") `a
+b`,
+    string body,
+}")).
+Eval vm_compute in ("<<<M926>>>" ++ check (runes_of_ascii "packet A {
+    Inner {
+        u8 x `a
+b`,
+        Deep {
+            u8 y `a
+b`,
+        },
     },
 }")).
-Eval vm_compute in ("<<<M1908>>>" ++ check (runes_of_ascii "packet A  {
-match
-    k	as
-
-    n {
-[
-""a""
-,
-
-    22 , ""c c""
-, 4
-,
-""e"" ] : B
-,
-
-    2
-	: C
-	} , }
-")).
-Eval vm_compute in ("<<<M353>>>" ++ check (runes_of_ascii "options { _x
-    =
-    ""`tick`""	;matchKey=
-""it's""
-;	options1
-    = u16 ; stringy= true
-    // c
-    }
-")).
-Eval vm_compute in ("<<<M1957>>>" ++ check (runes_of_ascii "  packet
-
-    A
-
-{Inner	{
-    u8 x
-    `x
-`
-
-    ,
-Deep
-{
-	u8 
-y`x
-`
-    , } 
-,	}
-
-    , } ")).
-Eval vm_compute in ("<<<M862>>>" ++ check (runes_of_ascii "packet A {
-  match k as n {
-    [""a"", ""bb"", 007, ""d"", ""e"", 66, ""g"", ""h""] : B,
-    2 : C
-  },
-}")).
-Eval vm_compute in ("<<<M608>>>" ++ check (runes_of_ascii "
+Eval vm_compute in ("<<<M634>>>" ++ check (runes_of_ascii "
 packet
-    asx {match u128 as lengthOf
-{
-//	t
-// `tick` ""quote"" 'q'
-255 : x , ,
-    } ,	}")).
-Eval vm_compute in ("<<<M579>>>" ++ check (runes_of_ascii "
-packet
-    asx {match u128 lengthOf as
+    asx {matc@lengthOfh u128 as lengthOf
 {
 //	t
 // `tick` ""quote"" 'q'
 255 : x ,
     } ,	}")).
-Eval vm_compute in ("<<<M828>>>" ++ check (runes_of_ascii "packet A {
-  match k as n {
-    [""a"", ""bb"", ""c c"", ""d"", ""e"", ""f""] : B,
-    2 : C
-  },
-}")).
-Eval vm_compute in ("<<<M1302>>>" ++ check (runes_of_ascii "packet order_item {
-    u8 a,
-}
-root packet new_order {
-    order_item,
-    u8 x,
-}
-")).
-Eval vm_compute in ("<<<M831>>>" ++ check (runes_of_ascii "packet A {
-  match k as n {
-    [1, ""bb"", 007, ""d"", 5, ""f""] : B
-    2 : C
-  },
-}")).
-Eval vm_compute in ("<<<M1546>>>" ++ check (runes_of_ascii "packet A {
-    match k as n {
-        [1, ""bb""] : B,
-        2 : C,
-    },
-}")).
-Eval vm_compute in ("<<<M1590>>>" ++ check (runes_of_ascii "root packet P {
-    u16 a,
-    u32 Sum @calculatedFrom(""CR\
-    C32""),
-}")).
-Eval vm_compute in ("<<<M739>>>" ++ check (runes_of_ascii "zchar[ i64 @calculatedFrom( match false ) Header char[ @lengthOf( :")).
-Eval vm_compute in ("<<<M365>>>" ++ check (runes_of_ascii "MetaData x_y_z { i8i8 u8x , string	uint8x
-    `crlf
-line` , }")).
-Eval vm_compute in ("<<<M1850>>>" ++ check (runes_of_ascii "MetaData M {
-    u8 x `x
-        `,
-    T t `x
-        `,
-}")).
-Eval vm_compute in ("<<<M627>>>" ++ check (runes_of_ascii "
+Eval vm_compute in ("<<<M600>>>" ++ check (runes_of_ascii "
 packet
     asx {match u128 as lengthOf
 {
 //	t
-// `t")).
-Eval vm_compute in ("<<<M1217>>>" ++ check (runes_of_ascii "packet body { i32 f32a `{ , }` , } options { // c
+// `tick` ""quote"" 'q'
+255 packet x ,
+    } ,	}")).
+Eval vm_compute in ("<<<M560>>>" ++ check (runes_of_ascii "
+packet
+    false {match u128 as lengthOf
+{
+//	t
+// `tick` ""quote"" 'q'
+255 : x ,
+    } ,	}")).
+Eval vm_compute in ("<<<M873>>>" ++ check (runes_of_ascii "packet A {
+  match k as n {
+    [1, 22, ""c c"", 4, 5, ""f"", 7, 8, ""i""] : B,
+    2 : C
+  },
 }")).
-Eval vm_compute in ("<<<M1753>>>" ++ check (runes_of_ascii "packet stringy {
+Eval vm_compute in ("<<<M612>>>" ++ check (runes_of_ascii "
+packet
+    asx {match u128 as lengthOf
+{
+//	t
+// `tick` ""quote"" 'q'
+255 : x ,
+     ,	}")).
+Eval vm_compute in ("<<<M1246>>>" ++ check (runes_of_ascii "options {
+    LittleEndian = true;
 }
+root packet P {
+    repeat char cs,
+    u8 x,
+}
+")).
+Eval vm_compute in ("<<<M816>>>" ++ check (runes_of_ascii "packet A {
+  match k as n {
+    [""a"", ""bb"", ""c c"", ""d"", ""e""] : B
+    2 : C
+  },
+}")).
+Eval vm_compute in ("<<<M840>>>" ++ check (runes_of_ascii "packet A {
+  match k as n {
+    [1, 22, 007, 4, 5, 66, 7] : B
+    2 : C
+  },
+}")).
+Eval vm_compute in ("<<<M459>>>" ++ check (runes_of_ascii "packet uint8x
+{ match pack
+    as msg_type	{
+    0123456789 :	float
+}
+,")).
+Eval vm_compute in ("<<<M1283>>>" ++ check (runes_of_ascii "root packet P {
+    u16 a,
+    u32 Sum @calculatedFrom(""CR\
+C32""),
+}
+")).
+Eval vm_compute in ("<<<M1101>>>" ++ check (runes_of_ascii "// top
+MetaData
+    // c0
+tag
+    // c1
+{
+    // c2
+}
+    // c3
+")).
+Eval vm_compute in ("<<<M948>>>" ++ check (runes_of_ascii "packet A {
+    B b `x
+`,
+    B `x
+`,
+    repeat B bs `x
+`,
+}")).
+Eval vm_compute in ("<<<M764>>>" ++ check (runes_of_ascii "float32 true uint8 f32 i64 i32 @leftPad ) char[ } uint8")).
+Eval vm_compute in ("<<<M1207>>>" ++ check (runes_of_ascii "packet body { i32 f32a // c
+`{ , }` , } options { }")).
+Eval vm_compute in ("<<<M927>>>" ++ check (runes_of_ascii "MetaData M {
+    u8 x `a
+b`,
+    T t `a
+b`,
+}")).
+Eval vm_compute in ("<<<M1223>>>" ++ check (runes_of_ascii "// top
+packet // c0
+x { // c2
+}
+    // c3
+")).
+Eval vm_compute in ("<<<M708>>>" ++ check (runes_of_ascii "// @lengthOf(
+packet i8i8 { u128 o ,")).
+Eval vm_compute in ("<<<M1883>>>" ++ check (runes_of_ascii "
 
-MetaData crc {
-    u16 o,
-}")).
-Eval vm_compute in ("<<<M965>>>" ++ check (runes_of_ascii "options {
-    a = ""x\
-y"";
-    b = ""x\
-y""
-}")).
-Eval vm_compute in ("<<<M274>>>" ++ check (runes_of_ascii "packet Z9_
-{ }
-    packet Pad { } 	 ")).
-Eval vm_compute in ("<<<M958>>>" ++ check (runes_of_ascii "root packet A {
-    u8 x `
-x`,
-}")).
-Eval vm_compute in ("<<<M1013>>>" ++ check (runes_of_ascii "packet A {
- u8 x `d" ++ [8232]%N ++ runes_of_ascii "`, // c" ++ [8232]%N ++ runes_of_ascii "
-}")).
-Eval vm_compute in ("<<<M655>>>" ++ check (runes_of_ascii "// @lengthOf(
-packet i8i8 {")).
-Eval vm_compute in ("<<<M1104>>>" ++ check (runes_of_ascii "
-// c
-MetaData tag { }")).
-Eval vm_compute in ("<<<M1129>>>" ++ check (runes_of_ascii "
-// c
-MetaData u { }")).
-Eval vm_compute in ("<<<M986>>>" ++ check (runes_of_ascii "packet A {
+  packet A{u8 x`d" ++ [8287]%N ++ runes_of_ascii "`
+
+,	// c" ++ [8287]%N ++ runes_of_ascii "
 }
-// c" ++ [160]%N)).
-Eval vm_compute in ("<<<M1225>>>" ++ check (runes_of_ascii "
-// c
-packet x { }")).
-Eval vm_compute in ("<<<M1231>>>" ++ check (runes_of_ascii "packet x {
-// c
-}")).
-Eval vm_compute in ("<<<M742>>>" ++ check (runes_of_ascii "'j=KG=k_)FDOq")).
-Eval vm_compute in ("<<<M1005>>>" ++ check (runes_of_ascii "// c" ++ [8202]%N)).
-Eval vm_compute in ("<<<M734>>>" ++ check ([65279]%N)).
+")).
+Eval vm_compute in ("<<<M276>>>" ++ check (runes_of_ascii "MetaData repeatCount { }
+//	t
+")).
+Eval vm_compute in ("<<<M381>>>" ++ check (runes_of_ascii "options{
+int
+=char[] ; }
+//
+")).
+Eval vm_compute in ("<<<M1566>>>" ++ check (runes_of_ascii "packet
+A
+
+{ }  // c 
+ 
+")).
+Eval vm_compute in ("<<<M1105>>>" ++ check (runes_of_ascii "MetaData // c
+tag { }")).
+Eval vm_compute in ("<<<M1865>>>" ++ check (runes_of_ascii "packet int {
+}
+//	t")).
+Eval vm_compute in ("<<<M1039>>>" ++ check (runes_of_ascii "packet A {
+}// c 	")).
+Eval vm_compute in ("<<<M1044>>>" ++ check (runes_of_ascii "packet A {
+}// c" ++ [8203]%N)).
+Eval vm_compute in ("<<<M297>>>" ++ check (runes_of_ascii "// " ++ [128512]%N ++ runes_of_ascii " emoji
+
+
+")).
+Eval vm_compute in ("<<<M985>>>" ++ check (runes_of_ascii "// c" ++ [160]%N)).
+Eval vm_compute in ("<<<M19>>>" ++ check (runes_of_ascii "
+")).
